@@ -130,6 +130,8 @@ def unwrap_prob(pe, ex):
         return pe.args[0], 'softmax'
     if isinstance(pe, ast.Call) and U(pe.func).split('.')[-1] == 'exp' and pe.args:
         a = pe.args[0]
+        if isinstance(a, ast.Name):
+            a = resolve(a, ex) or a
         if isinstance(a, ast.BinOp) and isinstance(a.op, ast.Sub) and isinstance(a.right, ast.Call) \
                 and U(a.right.func).split('.')[-1] == 'logsumexp' and U(a.right.args[0]) == U(a.left):
             return a.left, 'exp(s - logsumexp(s))'
@@ -331,33 +333,55 @@ def check_helpers(ctx):
                'must draw %s noise with loc 0 and exactly the scale `%s` it is given; draws %s' % (dist, scale_p, detail))
 
 
+def lift_conditionals(e):
+    """f(a if c else b, x if c else y)  ->  f(a, x) if c else f(b, y)   (one shared test)"""
+    from ..engines.blockeval import T
+    if isinstance(e, ast.IfExp):
+        return ast.IfExp(test=e.test, body=lift_conditionals(e.body), orelse=lift_conditionals(e.orelse))
+    if isinstance(e, ast.Call):
+        tests = {T(a.test) for a in e.args if isinstance(a, ast.IfExp)}
+        if len(tests) == 1:
+            test = [a.test for a in e.args if isinstance(a, ast.IfExp)][0]
+            yes = ast.Call(func=e.func, args=[a.body if isinstance(a, ast.IfExp) else a for a in e.args], keywords=e.keywords)
+            no = ast.Call(func=e.func, args=[a.orelse if isinstance(a, ast.IfExp) else a for a in e.args], keywords=e.keywords)
+            return ast.IfExp(test=test, body=lift_conditionals(yes), orelse=lift_conditionals(no))
+    return e
+
+
 def check_best_noise(ctx):
-    """best_noise_distribution: each sampler it hands out is bound to exactly the value its own scale helper returned"""
+    """best_noise_distribution: each sampler it hands out is bound to exactly the value its own scale helper returned.
+    Decided on the expanded result (locals, tuple/conditional assignment and single-exit spellings looked through)."""
+    from ..engines.blockeval import BlockEval
+    from ..normalise import single_exit
     fi = ctx.repo.nfunc(MECH, 'Mechanism.best_noise_distribution')
     ctx.analysed(fi)
-    defs = {}
-    for st in walk_shallow(fi.node):
-        if isinstance(st, ast.Assign) and len(st.targets) == 1 and isinstance(st.targets[0], ast.Name):
-            defs.setdefault(st.targets[0].id, []).append(st.value)
+    stmts, _ = single_exit(clone(fi.body), '__ret__')
+    be = BlockEval(fi.qualname)
+    be.run(stmts)
+    R = be.env.get('__ret__')
+    if R is None:
+        raise AnalysisError('best_noise_distribution: no result')
+    leaves = []
+
+    def walk(e):
+        if isinstance(e, ast.IfExp):
+            walk(e.body)
+            walk(e.orelse)
+        else:
+            leaves.append(e)
+    walk(lift_conditionals(R))
     n = 0
-    for r in walk_shallow(fi.node):
-        if not isinstance(r, ast.Return) or not (isinstance(r.value, ast.Call) and U(r.value.func) in ('partial', 'functools.partial')):
-            continue
+    for c in leaves:
+        if not (isinstance(c, ast.Call) and U(c.func) in ('partial', 'functools.partial')):
+            raise AnalysisError('best_noise_distribution: result `%s` is not a partial(sampler, scale)' % U(c)[:80])
         n += 1
-        c = r.value
         sampler = U(c.args[0]) if c.args else None
-        arg = c.args[1] if len(c.args) > 1 else None
+        src = c.args[1] if len(c.args) > 1 else None
         helper = {'self.laplace_noise': 'self.laplace_noise_scale', 'self.gaussian_noise': 'self.gaussian_noise_scale'}.get(sampler)
-        ok = False
-        src = None
-        if helper and isinstance(arg, ast.Name) and len(defs.get(arg.id, [])) == 1:
-            src = defs[arg.id][0]
-            ok = isinstance(src, ast.Call) and U(src.func) == helper and all(isinstance(a, ast.Name) and a.id in fi.params for a in src.args)
-        elif helper and isinstance(arg, ast.Call):
-            src = arg
-            ok = U(src.func) == helper and all(isinstance(a, ast.Name) and a.id in fi.params for a in src.args)
-        ctx.ob('sampler-identity', fi, r, ok,
-               'the sampler `%s` must be bound to exactly what `%s(...)` returned for the caller\'s own parameters; bound to `%s` = `%s`'
-               % (sampler, helper, U(arg) if arg is not None else None, U(src) if src is not None else '?'))
+        ok = bool(helper) and isinstance(src, ast.Call) and U(src.func) == helper and \
+            all(isinstance(a, ast.Name) and a.id in fi.params for a in src.args) and len(c.args) == 2 and not c.keywords
+        ctx.ob('sampler-identity', fi, fi.node, ok,
+               'the sampler `%s` must be bound to exactly what `%s(...)` returned for the caller\'s own parameters; bound to `%s`'
+               % (sampler, helper, U(src) if src is not None else None), construct='result ' + U(c)[:100])
     if n == 0:
         raise AnalysisError('best_noise_distribution: no partial(...) return found')
